@@ -254,6 +254,9 @@ def c11_cast(a: ValueType, b: ValueType) -> tuple[ValueType, ValueType]:
         return a, b
     va = deepcopy(a)
     vb = deepcopy(b)
+    # The converted type of a boolean is an integer type. Not a boolean anymore.
+    va.group &= ~VTGroup.BOOL
+    vb.group &= ~VTGroup.BOOL
 
     if sign_match:
         if va.bit_width < vb.bit_width:
